@@ -166,8 +166,8 @@ def fits_bounded_instance():
     from pb_bss.distribution import CACGMMTrainer, CWMMTrainer, GMMTrainer, VMFMMTrainer, GCACGMMTrainer, VMFCACGMMTrainer, CBMMTrainer
 
     def make(B):
-        return {'which': B.choose('which', ['cacgmm', 'cacgmm-mask', 'cwmm', 'gmm-full', 'gmm-diagonal', 'gmm-spherical', 'vmfmm', 'gcacgmm', 'vmfcacgmm', 'cbmm']),
-                'K': B.choose('K', [2, 3, 4]), 'it': B.choose('it', [1, 2, 5, 20]), 'wca': B.choose('wca', [(-1,), (-3,), (-3, -1)]),
+        return {'which': B.choose('which', ['cacgmm', 'cacgmm-mask', 'cwmm', 'gmm-full', 'gmm-diagonal', 'gmm-spherical', 'vmfmm', 'gcacgmm', 'vmfcacgmm', 'cbmm', 'gcacgmm-ipa', 'vmfcacgmm-ipa', 'gcacgmm-ipa', 'vmfcacgmm-ipa']),
+                'K': B.choose('K', [2, 3, 3, 4]), 'it': B.choose('it', [1, 2, 5, 20]), 'wca': B.choose('wca', [(-1,), (-3,), (-3, -1)]),
                 'seed': B.choose('seed', list(range(3000))), 'd': B.given('d', np.zeros(1))}
 
     def call(inp):
@@ -185,10 +185,12 @@ def fits_bounded_instance():
         mask[:, :, 0] = True
 
         def run(ii, mm):
-            if which in ('gcacgmm', 'vmfcacgmm'):
-                cls = GCACGMMTrainer if which == 'gcacgmm' else VMFCACGMMTrainer
+            if which.startswith('gcacgmm') or which.startswith('vmfcacgmm'):
+                cls = GCACGMMTrainer if which.startswith('gcacgmm') else VMFCACGMMTrainer
                 tr = cls()
-                m = tr.fit(y, emb, initialization=ii, iterations=it, weight_constant_axis=inp['wca'])
+                ipa = which.endswith('-ipa')
+                m = tr.fit(y, emb, initialization=ii, iterations=max(it, 2) if ipa else it, weight_constant_axis=inp['wca'],
+                           inline_permutation_alignment=ipa)
                 return m.predict(y, emb)
             if which == 'cacgmm-mask':
                 m = CACGMMTrainer().fit(y, initialization=ii * mm, iterations=it, source_activity_mask=mm, weight_constant_axis=inp['wca'])
